@@ -159,8 +159,14 @@ def beqVL : List VExpr → List VExpr → Bool
   | _, _ => false
 end
 
+/-- a run of one child is that child (`[expr]` at the node level and `children[i : i + 1]` in the list loop are the same
+exprlist) -/
+def unwrap1 : VExpr → VExpr
+  | .list [x] => x
+  | e => e
+
 /-- two replaced sub-expressions print alike and have the same unknown axes with the same bounds -/
-def sameShape (e e' : VExpr) : Bool := beqV (eraseValued e) (eraseValued e')
+def sameShape (e e' : VExpr) : Bool := beqV (eraseValued (unwrap1 e)) (eraseValued (unwrap1 e'))
 
 def disjointNames (a b : List String) : Bool := a.all (fun x => !b.contains x)
 
